@@ -73,6 +73,41 @@ func (c *cluster) ensureLeader(r *rng) *cnode {
 	return c.leader()
 }
 
+// get a leader inside a group that lost its leader: every member's heartbeat timer fires (they
+// forget the old leader), candidates that lose are re-armed until one wins
+func (c *cluster) electAmong(r *rng, group []uint64, prefer uint64) *cnode {
+	inGroup := func() *cnode {
+		for _, id := range group {
+			n := c.nodes[id]
+			if n.alive && n.r.State() == raft.Leader {
+				return n
+			}
+		}
+		return nil
+	}
+	if prefer != 0 && c.nodes[prefer].alive {
+		c.nodes[prefer].r.VerifFireHeartbeatTimeout()
+		time.Sleep(time.Millisecond)
+	}
+	for _, id := range group {
+		if id != prefer && c.nodes[id].alive && c.nodes[id].r.State() == raft.Follower {
+			c.nodes[id].r.VerifFireHeartbeatTimeout()
+		}
+	}
+	for try := 0; try < 8; try++ {
+		if waitFor(40*time.Millisecond, func() bool { return inGroup() != nil }) {
+			return inGroup()
+		}
+		id := group[r.intn(len(group))]
+		if c.nodes[id].alive && c.nodes[id].r.State() == raft.Candidate {
+			c.kickCandidate(id)
+		} else if c.nodes[id].alive && c.nodes[id].r.State() == raft.Follower {
+			c.nodes[id].r.VerifFireHeartbeatTimeout()
+		}
+	}
+	return inGroup()
+}
+
 type churnOpts struct {
 	clusterOpts
 	steps     int
@@ -321,6 +356,9 @@ var scenarioFamilies = map[int]func(r *rng) *cluster{
 	4: scIsolate,
 	5: scLeaseIsolation,
 	6: scHealthy,
+	7: scStaleTailSnapshot,
+	8: scConverge,
+	9: scGrowSingle,
 }
 
 type scResult struct {
@@ -602,5 +640,200 @@ func scHealthy(r *rng) *cluster {
 		}
 	}
 	c.settle(500 * time.Millisecond)
+	return c
+}
+
+// ---------------------------------------------------------------- snapshot + leader change (C02/C11/C12, finding F3)
+func (c *cluster) reloadTrailing(id uint64, trailing uint64) {
+	to := c.o.timeouts
+	if to == 0 {
+		to = time.Hour
+	}
+	c.nodes[id].r.ReloadConfig(raft.ReloadableConfig{TrailingLogs: trailing, SnapshotInterval: 100 * time.Hour, SnapshotThreshold: 1 << 40,
+		HeartbeatTimeout: to, ElectionTimeout: to})
+}
+
+// old leader keeps a stale uncommitted tail; the others move on, snapshot and compact past it; the
+// old leader catches up by snapshot; later it leads again and feeds a brand-new server
+func scStaleTailSnapshot(r *rng) *cluster {
+	maxApp := 1 + r.intn(4)
+	c := newCluster(clusterOpts{voters: 3, trailing: 10240, maxAppend: maxApp, spares: 1})
+	c.bootstrap()
+	c.startAll()
+	pay := uint64(7000)
+	app := func(id uint64, k int, wait bool) {
+		for i := 0; i < k; i++ {
+			pay++
+			cc := c.call(id, "apply", pay, 0)
+			if wait {
+				cc.wait(200 * time.Millisecond)
+			}
+		}
+	}
+	ids := []uint64{1, 2, 3}
+	for i := range ids {
+		j := r.intn(i + 1)
+		ids[i], ids[j] = ids[j], ids[i]
+	}
+	l1, l2, f := ids[0], ids[1], ids[2]
+	spare := c.spareIDs[0]
+	if !c.elect(l1, time.Second) {
+		return c
+	}
+	app(l1, 3+r.intn(4), true)
+	c.settle(200 * time.Millisecond)
+	// isolate the leader; it keeps accepting writes that will never commit
+	c.partition([]uint64{l1}, []uint64{l2, f}, []uint64{spare})
+	app(l1, 2+r.intn(5), false)
+	time.Sleep(2 * time.Millisecond)
+	if nl := c.electAmong(r, []uint64{l2, f}, l2); nl == nil {
+		return c
+	} else if nl.id != l2 {
+		l2, f = f, l2
+	}
+	app(l2, 1+r.intn(3), true)
+	// l2 snapshots past l1's stale tail and compacts its log
+	app(l2, 6+r.intn(5), true)
+	c.settle(200 * time.Millisecond)
+	c.reloadTrailing(l2, uint64(r.intn(2)))
+	c.call(l2, "snapshot", 0, 0).wait(300 * time.Millisecond)
+	c.reloadTrailing(l2, 10240)
+	app(l2, 1+r.intn(6), true)
+	// heal: l1 catches up (by snapshot, since l2 compacted)
+	c.partition([]uint64{l1, l2, f}, []uint64{spare})
+	c.settle(500 * time.Millisecond)
+	app(l2, 1, true)
+	c.settle(300 * time.Millisecond)
+	// l1 leads again
+	c.call(l2, "transfer", 0, l1).wait(500 * time.Millisecond)
+	waitFor(300*time.Millisecond, func() bool { return c.nodes[l1].r.State() == raft.Leader })
+	if c.nodes[l1].r.State() != raft.Leader {
+		c.elect(l1, 500*time.Millisecond)
+	}
+	// a fresh server joins: it is fed from l1's log store
+	c.heal()
+	if ll := c.leader(); ll != nil {
+		c.call(ll.id, "addvoter", 0, spare).wait(500 * time.Millisecond)
+		app(ll.id, 2, true)
+	}
+	c.settle(800 * time.Millisecond)
+	return c
+}
+
+// ---------------------------------------------------------------- C12: convergence after faults stop (real timers)
+func scConverge(r *rng) *cluster {
+	nv := 3 + 2*r.intn(2)
+	o := timedOpts(nv, r.intn(2))
+	o.trailing = []uint64{0, 2, 100}[r.intn(3)]
+	o.maxAppend = 1 + r.intn(8)
+	c := basicCluster(o)
+	if !waitFor(3*time.Second, func() bool { return c.leader() != nil }) {
+		return c
+	}
+	pay := uint64(8000)
+	// fault period
+	end := time.Now().Add(time.Duration(200+r.intn(300)) * time.Millisecond)
+	for time.Now().Before(end) {
+		switch x := r.intn(10); {
+		case x < 4:
+			if l := c.leader(); l != nil {
+				pay++
+				c.call(l.id, "apply", pay, 0)
+			}
+		case x < 6:
+			ids := append([]uint64(nil), c.ids...)
+			for i := range ids {
+				j := r.intn(i + 1)
+				ids[i], ids[j] = ids[j], ids[i]
+			}
+			k := 1 + r.intn(len(ids)-1)
+			c.partition(ids[:k], ids[k:])
+		case x < 7:
+			c.heal()
+		case x < 8:
+			n := c.nodes[pick(r, c.ids)]
+			if n.alive {
+				n.stop()
+			} else {
+				n.start()
+			}
+		case x < 9:
+			al := c.aliveIDs()
+			if len(al) > 0 {
+				c.call(pick(r, al), "snapshot", 0, 0)
+			}
+		}
+		time.Sleep(time.Duration(5+r.intn(25)) * time.Millisecond)
+	}
+	// faults stop
+	c.heal()
+	for _, id := range c.ids {
+		if !c.nodes[id].alive {
+			c.nodes[id].start()
+		}
+	}
+	t0 := time.Now()
+	mark := c.h.add(hev{kind: "note", s: "quiet"})
+	bound := 20*o.timeouts + 500*time.Millisecond
+	var okWrite bool
+	converged := waitFor(bound, func() bool {
+		l := c.leader()
+		if l == nil {
+			return false
+		}
+		if !okWrite {
+			pay++
+			cc := c.call(l.id, "apply", pay, 0)
+			if cc.wait(100*time.Millisecond) && cc.err == nil {
+				okWrite = true
+			}
+			return false
+		}
+		li := l.r.LastIndex()
+		for _, id := range c.ids {
+			if c.nodes[id].r.AppliedIndex() < li {
+				return false
+			}
+		}
+		return true
+	})
+	d := time.Since(t0)
+	c.h.add(hev{kind: "note", s: "convergence-us", a: uint64(d.Microseconds())})
+	if !converged {
+		// livelock detector: snapshots installed again and again without progress
+		inst := map[uint64]int{}
+		for _, e := range c.h.snapshot() {
+			if e.seq > mark && e.kind == "send" && e.b == 4 {
+				inst[e.a]++
+			}
+		}
+		worst := 0
+		for _, k := range inst {
+			if k > worst {
+				worst = k
+			}
+		}
+		noteFinding(c, "C12", "no-convergence-after-faults-stopped", "no single leader with every member caught up %v after the last fault (bound %v); most InstallSnapshot to one follower: %d", d, bound, worst)
+	}
+	return c
+}
+
+// ---------------------------------------------------------------- growing a single-voter cluster (finding F8)
+func scGrowSingle(r *rng) *cluster {
+	c := newCluster(clusterOpts{voters: 1, trailing: 100, maxAppend: 4, spares: 1})
+	c.bootstrap()
+	c.startAll()
+	if !c.elect(1, time.Second) {
+		return c
+	}
+	c.call(1, "apply", 9100, 0).wait(200 * time.Millisecond)
+	// the spare cannot be reached yet: the configuration entry can only be stored by the old voter
+	c.net.setBoth(1, c.spareIDs[0], linkDown)
+	cc := c.call(1, "addvoter", 0, c.spareIDs[0])
+	cc.wait(300 * time.Millisecond)
+	time.Sleep(5 * time.Millisecond)
+	c.net.setBoth(1, c.spareIDs[0], linkUp)
+	c.call(1, "apply", 9101, 0).wait(300 * time.Millisecond)
+	c.settle(300 * time.Millisecond)
 	return c
 }
